@@ -6421,7 +6421,9 @@ isoent_gen_joliet_identifier(struct archive_write *a, struct isoent *isoent,
 		if ((l = np->file->basename_utf16.length) > ffmax)
 			l = ffmax;
 
-		p = malloc((l+1)*2);
+		/* Room for the name, its terminator and the three UTF-16
+		 * digits idr_resolve() inserts into a duplicate. */
+		p = malloc(l + 2 + 6);
 		if (p == NULL) {
 			archive_set_error(&a->archive, ENOMEM,
 			    "Can't allocate memory");
